@@ -115,6 +115,9 @@ type playDef struct {
 	// RawCfg: if set, the whole configuration (a play the generator's cast/role scheme cannot
 	// express, e.g. without actors); the compiled play is then not exported
 	RawCfg string
+	// DupKeys: the same actor runs the same action twice at the same time (a scene named
+	// twice in a group): csv rows and ledger rows of that action cannot be paired one to one
+	DupKeys bool
 	// Rdv: the actions of the (single) scene group rendezvous: all of them must run at the same time
 	Rdv bool
 	// fault descriptor (C07)
@@ -1080,7 +1083,7 @@ func genOverrun(rng *rand.Rand, name string, variant int) *playDef {
 // storyline clauses produce): its lines run once per mention.  Single-step lines and an
 // atomic run counter, since the same actor runs the same action twice at the same time.
 func genDupInGroup(rng *rand.Rand, name string, variant int) *playDef {
-	p := &playDef{Name: name, Spot: map[string]string{}, RoleOf: map[string]string{}}
+	p := &playDef{Name: name, Spot: map[string]string{}, RoleOf: map[string]string{}, DupKeys: true}
 	p.Roles = []string{"r1"}
 	p.Actors = []string{"x1", "x2"}
 	p.RoleOf["x1"], p.RoleOf["x2"] = "r1", "r1"
@@ -1384,6 +1387,10 @@ func genC07(rng *rand.Rand, tier string) []*playDef {
 		for _, spots := range []bool{true, false} {
 			p := baseC07("")
 			p.action("a0s0").DurMs = 3000
+			if sig == int(syscall.SIGTERM) {
+				// more than 5 s left to run when the signal arrives, far below the one-minute limit
+				p.action("a0s0").DurMs = 7500
+			}
 			p.Sig, p.SigAtMs, p.SigAfter = sig, 400+rng.Intn(400), "a0s0"
 			f := "signal-during-action"
 			if !spots {
@@ -1439,6 +1446,22 @@ func genC07(rng *rand.Rand, tier string) []*playDef {
 		sb.WriteString("end\n")
 		p := &playDef{Spot: map[string]string{}, RoleOf: map[string]string{}, RawCfg: sb.String(), Flags: []string{"-S"}}
 		add(p, "mood-only-scenes-foul-S", "-")
+	}
+	// 6h. `repeat from` + a finite `repeat time` (+ the default `repeat always`): the play
+	// ends by itself once the time is over, although each iteration is shorter than it
+	{
+		p := baseC07("")
+		p.Story = []string{"abc"}
+		p.Repeat, p.RepeatMs = "a", 1500
+		add(p, "repeat-time-ends-the-play", "-")
+	}
+	// 6i. (thorough only: it lasts > 60 s) a signal after the play has run for more than a
+	// minute: the one-minute limit counts from the signal, the shutdown is as graceful as ever
+	if !quick {
+		p := baseC07("")
+		p.Story = []string{"abc " + strings.Repeat(".", 615)}
+		p.Sig, p.SigAtMs = int(syscall.SIGINT), 61500
+		add(p, "signal-after-a-long-play", "sigint")
 	}
 	// 7. commands that outlive their scene (sleep 300) while the play is stopped:
 	// the known finding "running-action-or-cleanup-not-interruptible" makes these slow
@@ -1662,6 +1685,16 @@ func (c *caseOut) index() {
 	}
 }
 
+func rdvCode(p *playDef) string {
+	switch {
+	case p.Rdv:
+		return "1"
+	case p.DupKeys:
+		return "2"
+	}
+	return "0"
+}
+
 func coqLedgerCase(c *caseOut) string {
 	o := &c.Obs
 	var led, csv, cl []string
@@ -1685,7 +1718,7 @@ func coqLedgerCase(c *caseOut) string {
 	}
 	return fmt.Sprintf("mkLcase %s %s %s %d %s %s %s %d %s %s %s %s %s %s %s",
 		coqPlay(c, c.Play.Play), coqPlay(c, expectedPlay(c.Def)), vh.List(marks), c.Play.RepeatActNum, vh.Z(int64(c.Play.RepeatCount)), vh.Z(c.Play.RepeatTimeout), vh.Z(c.Play.TempoNs),
-		c.Def.SpotKind, vh.Bool(c.Def.Rdv), vh.Z(o.LaunchNs), vh.Z(o.ExitNs), vh.Z(int64(o.Exit)),
+		c.Def.SpotKind, rdvCode(c.Def), vh.Z(o.LaunchNs), vh.Z(o.ExitNs), vh.Z(int64(o.Exit)),
 		vh.List(cl), vh.List(led), vh.List(csv))
 }
 
@@ -1695,7 +1728,7 @@ var faultKinds = []string{"none", "action-fails", "spotlight-fails", "spotlight-
 	"cleanup-hangs-2", "action-hangs-spotlight-fails", "action-hangs-audit-foul-S", "spotlight-graceful-hup", "audit-foul-S-chatty-long-action",
 	"signal-during-action", "signal-during-action-no-spotlights", "spotlight-ignores-hup-leader-signal",
 	"signal-during-initial-cleanup", "spotlight-setsid-child-holds-pipe", "action-hangs-two-sigints",
-	"commands-read-open-stdin", "mood-only-scenes-foul-S"}
+	"commands-read-open-stdin", "mood-only-scenes-foul-S", "repeat-time-ends-the-play", "signal-after-a-long-play"}
 
 func faultIdx(f string) int {
 	for i, k := range faultKinds {
@@ -1812,8 +1845,8 @@ func main() {
 				p = genFanoutFail(rng, fmt.Sprintf("c05-%d-fanout", i), i/8)
 			case i%16 == 6:
 				p = genOverrun(rng, fmt.Sprintf("%s-%d-overrun", *prop, i), i/16)
-			case *prop == "c05" && i%16 == 9:
-				p = genDupInGroup(rng, fmt.Sprintf("c05-%d-dup-in-group", i), i/16)
+			case i%16 == 9:
+				p = genDupInGroup(rng, fmt.Sprintf("%s-%d-dup-in-group", *prop, i), i/16)
 			case i%16 == 12:
 				hard := -1
 				if *prop == "c05" {
@@ -1841,7 +1874,7 @@ func main() {
 			// three more rounds of the fast faults with fresh random instants
 			for rep := 0; rep < 3; rep++ {
 				for _, p := range genC07(rng, *tier) {
-					if !strings.Contains(p.Fault, "hangs") {
+					if !strings.Contains(p.Fault, "hangs") && p.Fault != "signal-after-a-long-play" {
 						p.Name = fmt.Sprintf("c07-%d-%s-%s", len(plays), p.Fault, p.FaultPos)
 						plays = append(plays, p)
 					}
